@@ -32,7 +32,7 @@ manifest = {
     "hooks": {
         "guard": "UFO2FT_VERIF",
         "enable": "no source hooks are needed: checks import ufo2ft from /repo/Lib (the working tree) and observe it through its public compile functions, filter/feature-writer protocols and the returned TTFont",
-        "baseline_off_cmd": "cd /repo && /venv/bin/python -m pytest -q -p no:cacheprovider --timeout=900 -x -n 8",
+        "baseline_off_cmd": "cd /repo && /venv/bin/python -m pytest -ra -q -p no:cacheprovider --timeout=900 --continue-on-collection-errors",
         "source_commits": [],
         "add_only": True,
     },
